@@ -621,6 +621,18 @@ func rulesC09(w *World, o *Out) {
 	o.Rule("C09.R2", "in every module function reachable from those methods without crossing a frame that recovers (defer-recover, whoops.Try): explicit panics, panicking SDK APIs (Int.Int64/Uint64, MustFloat64, Quo by a possibly-zero divisor, Must*/whoops.Assert), single-result type assertions, integer division by a non-constant and parallel-slice indexing are guarded, auto-accepted (codec round-trips, constant arguments) or individually triaged")
 	o.Rule("C09.R3", "the recovering frames exist: skyway EndBlocker / AppModule.EndBlock establish recover before any other call")
 
+	o.Rule("C09.R6", "the version gate stops only a node that is too old: a conditional rewrite of a version string in CheckChainVersion (adding the leading v semver needs) is decided by a test on the very string it rewrites, so a governance plan name reaches semver.Compare normalised")
+	if cv := w.MustFunc(o, "x/paloma/keeper", "Keeper", "CheckChainVersion"); cv != nil {
+		o.Analysed(w.FuncKey(cv))
+		n := 0
+		for _, fx := range conditionalSelfRewrites(cv) {
+			n++
+			o.Check("C09.R6", "CheckChainVersion|a version string is rewritten under a test on itself"+ordSuffix(n-1), fx.ok, w.Pos(fx.pos),
+				"the condition that decides whether the string gets its prefix reads a different string: a plan name without the leading v stays as it is, semver treats it as invalid (smaller than everything) and the gate panics on every node, whatever version it runs")
+		}
+		o.Note("C09.R6", "CheckChainVersion|conditional rewrites found", w.Pos(cv.Pos()), itoa(n))
+	}
+
 	o.Rule("C09.R4", "decimal range: the relayer fee multiplicator -- the one sender-controlled decimal that end-block arithmetic multiplies, subtracts and divides (relayer ranking, fee calculation) -- is refused where it is submitted unless it is set, non-negative and at most MaxUint64, and the fee store has no other runtime writer; LegacyDec arithmetic panics outside +-2^256")
 	{
 		tk := "x/treasury/keeper"
@@ -1093,4 +1105,102 @@ func decBoundAtMostMaxUint64(v ssa.Value) bool {
 		src = c.Call.Args[0]
 	}
 	return false
+}
+
+type selfRewrite struct {
+	pos token.Pos
+	ok  bool
+}
+
+// conditionalSelfRewrites: stores `x = g(x)` into a local variable (kept in memory or in a register)
+// that execute under a two-way branch; ok when the branch condition reads x.
+func conditionalSelfRewrites(f *ssa.Function) []selfRewrite {
+	var out []selfRewrite
+	// reads(v, a): does the value v depend (through operands, within f) on a load of the local a / on the value a
+	var reads func(v ssa.Value, a ssa.Value, d int, seen map[ssa.Value]bool) bool
+	reads = func(v ssa.Value, a ssa.Value, d int, seen map[ssa.Value]bool) bool {
+		if v == nil || seen[v] || d > 25 {
+			return false
+		}
+		seen[v] = true
+		if v == a {
+			return true
+		}
+		if u, ok := v.(*ssa.UnOp); ok && u.Op == token.MUL && u.X == a {
+			return true
+		}
+		in, ok := v.(ssa.Instruction)
+		if !ok {
+			return false
+		}
+		if al, ok := v.(*ssa.Alloc); ok {
+			// a temporary (variadic backing array, interface box): what was stored into it
+			for _, r := range *al.Referrers() {
+				switch x := r.(type) {
+				case *ssa.Store:
+					if reads(x.Val, a, d+1, seen) {
+						return true
+					}
+				case *ssa.IndexAddr:
+					for _, r2 := range *x.Referrers() {
+						if st, ok := r2.(*ssa.Store); ok && reads(st.Val, a, d+1, seen) {
+							return true
+						}
+					}
+				}
+			}
+			return false
+		}
+		for _, op := range in.Operands(nil) {
+			if *op != nil && reads(*op, a, d+1, seen) {
+				return true
+			}
+		}
+		return false
+	}
+	guard := func(b *ssa.BasicBlock) *ssa.If {
+		if len(b.Preds) != 1 {
+			return nil
+		}
+		p := b.Preds[0]
+		if len(p.Instrs) == 0 {
+			return nil
+		}
+		i, _ := p.Instrs[len(p.Instrs)-1].(*ssa.If)
+		return i
+	}
+	for _, b := range f.Blocks {
+		for _, in := range b.Instrs {
+			switch x := in.(type) {
+			case *ssa.Store:
+				a, ok := x.Addr.(*ssa.Alloc)
+				if !ok || !isStringType(x.Val.Type()) || !reads(x.Val, a, 0, map[ssa.Value]bool{}) {
+					continue
+				}
+				if g := guard(b); g != nil {
+					out = append(out, selfRewrite{x.Pos(), reads(g.Cond, a, 0, map[ssa.Value]bool{})})
+				}
+			case *ssa.Phi:
+				if len(x.Edges) != 2 || !isStringType(x.Type()) {
+					continue
+				}
+				for i, e := range x.Edges {
+					o := x.Edges[1-i]
+					ei, isInstr := e.(ssa.Instruction)
+					if !isInstr || o == e || !reads(e, o, 0, map[ssa.Value]bool{}) {
+						continue
+					}
+					if g := guard(ei.Block()); g != nil {
+						out = append(out, selfRewrite{x.Pos(), reads(g.Cond, o, 0, map[ssa.Value]bool{})})
+					}
+				}
+			}
+		}
+	}
+	return out
+}
+
+func isStringType(t types.Type) bool {
+	b, ok := t.Underlying().(*types.Basic)
+	return ok && b.Info()&types.IsString != 0
 }
